@@ -77,6 +77,12 @@ func c01World(tp *Tape, env *Env) (*Plan, *Violation) {
 	if env.Thorough {
 		maxOps = 64
 	}
+	if g.outlier == "rounds" {
+		maxOps = 260
+	}
+	if g.outlier != "" {
+		env.St.probe("world.size_outlier")
+	}
 	plan := &Plan{Harness: 1, Property: "C01", Program: prog, Layout: &layout, World: w}
 	maxLeaves := 24
 	if env.Thorough {
